@@ -622,12 +622,11 @@ pub fn fuzz_one(def: &PropDef, part_name: &str, sc: &Scenario, known: &KnownFile
     };
     let (unknown, ex) = acc.eval(part, sc, false);
     // a mutated scenario that contains the trigger of a known finding (a second stream on a
-    // move-out queue; add_stream on a multi-handle parent raced by a sibling) can show any of its
-    // consequences: none of them is a new finding
+    // move-out queue) can show any of its consequences: none of them is a new finding
     let truthy = |f: &Finding, k: &str| f.facts.get(k) == Some(&serde_json::Value::Bool(true));
     let unknown: Vec<Finding> = unknown
         .into_iter()
-        .filter(|f| !truthy(f, "addstream_raced_by_sibling") && !truthy(f, "mpmc_second_stream"))
+        .filter(|f| !truthy(f, "mpmc_second_stream"))
         .collect();
     if unknown.is_empty() {
         return None;
